@@ -547,6 +547,15 @@ def rule_checked_conversions(E, R):
                 # (the counted value may itself be the end of a chain: only what follows try_into matters)
                 ok = "try_into" in ms and "map_err" in ms[ms.index("try_into"):] and src is not strip(st["init"]) and \
                     all(m_ in ("map_err",) for m_ in ms[ms.index("try_into") + 1:])
+                # the same checked conversion with the failure handled by a match / let-else that returns the error
+                i0 = strip(st["init"])
+                if not ok and i0.get("k") == "Match" and not sem.is_try(i0):
+                    sc_ = deref(i0["scrut"])
+                    errs_ = [a_ for a_ in i0["arms"] if pat_variant(a_["pat"]) == "core::result::Result::Err" or a_["pat"].get("k") == "PWild"]
+                    ok = sc_.get("k") == "MethodCall" and sc_["m"] == "try_into" and bool(errs_) and \
+                        all(bool(explicit_err_returns(a_["body"])) for a_ in errs_)
+            if "els" in st and "init" in st and st["pat"].get("ty", "").endswith("u8>") is False:
+                pass
         R.check(ok, rule, fn, "hash count converted with try_into::<u8>()?, more than 255 -> error", where=h["span"])
 
 
